@@ -894,8 +894,14 @@ func ZZ_C13_Guards() {
 		gt.Requires = &ast.Requires{Vars: []*ast.VarsWithValidation{{Name: "NEEDED"}}}
 		guardFails, wantCode = true, errors.CodeTaskMissingRequiredVars
 	case 3:
-		gt.Requires = &ast.Requires{Vars: []*ast.VarsWithValidation{{Name: "NEEDED", Enum: []string{"x", "y"}}}}
-		gt.Vars.Set("NEEDED", ast.Var{Value: "z"})
+		gt.Requires = &ast.Requires{Vars: []*ast.VarsWithValidation{{Name: "NEEDED", Enum: []string{"x", "y", "1"}}}}
+		// the value outside the enum: a string, or a YAML number (the enum lists text)
+		switch zz.Choose("value_outside_the_enum_is", 2) {
+		case 0:
+			gt.Vars.Set("NEEDED", ast.Var{Value: "z"})
+		case 1:
+			gt.Vars.Set("NEEDED", ast.Var{Value: 3})
+		}
 		guardFails, wantCode = true, errors.CodeTaskNotAllowedVars
 	case 4:
 		gt.Preconditions = []*ast.Precondition{{Sh: zzPreText(), Msg: "no"}}
